@@ -1,6 +1,7 @@
 import S3V.Model.PostPolicy
 import S3V.Spec.PostPolicy
 import S3V.Model.SigV4
+import S3V.Thm.DtoTimestampText
 import S3V.Thm.SigV4Order
 /-!
 # Lemmas: the model of `post_policy.rs` refines the POST-policy specification
@@ -237,54 +238,9 @@ theorem fromBase64_refines (rd : Bytes → Option Int)
 
 /-! ## the expiration instant -/
 
-open S3V.Dto in
-theorem subsecLoop_le (s : Bytes) (value mult : Nat) :
-    (subsecLoop s value mult).1 ≤ value + 10 * mult - (if mult = 0 then 0 else 1) := by
-  induction s generalizing value mult with
-  | nil => simp [subsecLoop]; split <;> omega
-  | cons c s ih =>
-    simp only [subsecLoop]
-    split
-    · rename_i hd
-      have hc : c.toNat - 48 ≤ 9 := by
-        simp [isDigit] at hd
-        omega
-      have := ih (value + (c.toNat - 48) * mult) (mult / 10)
-      have h9 : (c.toNat - 48) * mult ≤ 9 * mult := Nat.mul_le_mul_right _ hc
-      split at this <;> split <;> omega
-    · simp; split <;> omega
-
-open S3V.Dto in
-theorem parseSubsec_lt {input : Bytes} {p : Nat × Bytes} (h : parseSubsec input = some p) :
-    p.1 < 1000000000 := by
-  unfold parseSubsec at h
-  split at h
-  · split at h
-    · split at h
-      · split at h
-        · rename_i d r' hd
-          injection h with h
-          have := subsecLoop_le r' ((d.toNat - 48) * 100000000) 10000000
-          have hd9 : d.toNat - 48 ≤ 9 := by simp [isDigit] at hd; omega
-          rw [h] at this
-          have h0 : (10000000 : Nat) ≠ 0 := by omega
-          rw [if_neg h0] at this
-          omega
-        · cases h
-      · cases h
-    · injection h with h; subst h; simp
-  · injection h with h; subst h; simp
-
-open S3V.Dto in
-theorem parseRfc3339_nanos_lt {e : Bytes} {t : Ts} (h : parseRfc3339 e = some t) : t.nanos < 1000000000 := by
-  unfold parseRfc3339 at h
-  simp only [Option.bind_eq_bind, Option.bind_eq_some_iff] at h
-  obtain ⟨a, -, a1, -, a2, -, a3, -, a4, -, a5, -, a6, -, a7, -, a8, -, a9, -, a10, -, a11, h11, a12, -, h⟩ := h
-  have hn := parseSubsec_lt h11
-  repeat' split at h
-  all_goals first
-    | (simp at h; done)
-    | (simp at h; rw [← h]; simp only []; first | omega | (split <;> omega))
+/-- `Timestamp::parse(DateTime)` yields a nanosecond below one second (proved with the timestamp lemmas) -/
+theorem parseRfc3339_nanos_lt {e : Bytes} {t : Dto.Ts} (h : Dto.parseRfc3339 e = some t) : t.nanos < 1000000000 :=
+  Dto.parseRfc3339_nanos_lt h
 
 /-- `now > expiration` on `OffsetDateTime`s (nanosecond precision) is at least as strict as the specification's comparison
     of whole seconds -/
